@@ -40,7 +40,7 @@ impl Check for C11 {
     }
     fn cases(&self, tier: Tier) -> u64 {
         match tier {
-            Tier::Quick => 30_000,
+            Tier::Quick => 80_000,
             Tier::Thorough => 240_000,
         }
     }
@@ -445,7 +445,11 @@ impl Check for C11 {
                         query::item_features(it, &mut f);
                         f.contains("q:alternation")
                     });
-                    ctx.fail(format!("C11:range:{kind}:lost_match{}", if wild_root { ":wildcard_root" } else if open_q { ":open_quantifier" } else if wild_before_anchor { ":wildcard_child_before_anchor" } else if has_alternation { ":alternation" } else { "" }), format!("{} lost matches that lie in the range: {:?} ({} returned, {} required)\n{hdr}", cfg_desc.join(", "), lost, got.len(), must.len()));
+                    // a wildcard-rooted pattern starts matching at its first child step; children of the root that sit in a
+                    // hidden node outside the range are never visited (known finding) - only when the root is partly outside
+                    let all_lost_partly_outside = !containing
+                        && must.iter().filter(|k| !gm.contains_key(*k)).all(|m| root_of(m).map(|r| xt.nodes[r].start < a || xt.nodes[r].end > b).unwrap_or(false));
+                    ctx.fail(format!("C11:range:{kind}:lost_match{}", if wild_root && all_lost_partly_outside { ":wildcard_root:root_partly_outside_range" } else if wild_root { ":wildcard_root" } else if open_q { ":open_quantifier" } else if wild_before_anchor { ":wildcard_child_before_anchor" } else if has_alternation { ":alternation" } else { "" }), format!("{} lost matches that lie in the range: {:?} ({} returned, {} required)\n{hdr}", cfg_desc.join(", "), lost, got.len(), must.len()));
                     return;
                 }
                 if got.len() < m_all.len() && !got.is_empty() {
